@@ -369,6 +369,13 @@ func runHarness(prog *ssa.Program, fn *ssa.Function, hc *HarnessCfg, known []Kno
 		to = 600
 	}
 	q := NewWorkQ(maxPaths, time.Now().Add(time.Duration(to)*time.Second))
+	if os.Getenv("GOSYM_EXHAUSTIVE") == "" {
+		q.stop = func() bool {
+			res.mu.Lock()
+			defer res.mu.Unlock()
+			return len(res.Viol) > 0
+		}
+	}
 	var wg sync.WaitGroup
 	var kf []KnownFinding
 	for _, k := range known {
